@@ -142,7 +142,7 @@ def oracle(job, o):
 
 # ---------------------------------------------------------------- case enumeration
 def programs(level, data_ok):
-    ops = ['g1', 'g2', 'g0', 'g5', 'z', 'g4294967295']       # the last delta wraps the 32-bit page sum: must fail like g5 and change nothing
+    ops = ['g1', 'g2', 'g0', 'g5', 'z', 'g4294967295', 'g65535']       # 2^32-1 wraps the 32-bit page sum, 65535 the 32-bit byte size: both must fail like g5 and change nothing
     if level == 'single':
         return [[o] for o in ops]
     if level == 'quick':
